@@ -244,7 +244,6 @@ func RollDoubleCross(src *rand.PCGSource, addLine IntType, pool IntType, points 
 
 			if reachAddRound {
 				addCount += 1
-				maxDice = 10
 			}
 
 			if isShowDetails {
@@ -256,6 +255,10 @@ func RollDoubleCross(src *rand.PCGSource, addLine IntType, pool IntType, points 
 			}
 		}
 
+		if addCount > 0 {
+			// 本轮出现暴击，记为10 (不能在循环中赋值: 面数大于10时，后面未暴击但大于10的骰子会把它覆盖)
+			maxDice = 10
+		}
 		resultDice += maxDice
 		allRollCount += addCount
 
